@@ -46,9 +46,9 @@ impl From<Cymk> for Rgb {
         let kv = 1_f64 - cymk.k;
 
         Rgb {
-            r: (255_f64 * (1_f64 - cymk.c) * kv) as u8,
-            g: (255_f64 * (1_f64 - cymk.m) * kv) as u8,
-            b: (255_f64 * (1_f64 - cymk.y) * kv) as u8,
+            r: (255_f64 * (1_f64 - cymk.c) * kv).round() as u8,
+            g: (255_f64 * (1_f64 - cymk.m) * kv).round() as u8,
+            b: (255_f64 * (1_f64 - cymk.y) * kv).round() as u8,
         }
     }
 }
